@@ -48,6 +48,12 @@ def build_value(v):
     if isinstance(v, dict):
         if "__stream__" in v:
             return io.BytesIO(build_value(v["__stream__"]))
+        if "__point__" in v:
+            from buidl.pecc import G
+            return build_value(v["__point__"]) * G
+        if "__tint__" in v:
+            mod, _, cn = v["__tint__"].rpartition(".")
+            return getattr(importlib.import_module(mod), cn)(build_value(v["value"]))
         if "__class__" in v:
             mod, _, cn = v["__class__"].rpartition(".")
             cls = importlib.import_module(mod)
